@@ -156,7 +156,7 @@ func wedgeSite(stacks string) string {
 	for _, line := range strings.Split(stacks, "\n") {
 		line = strings.TrimSpace(line)
 		if strings.HasPrefix(line, "github.com/free5gc/chf/") && !strings.Contains(line, "/verifsim") {
-			if i := strings.Index(line, "("); i > 0 {
+			if i := strings.LastIndex(line, "("); i > 0 {
 				line = line[:i]
 			}
 			return strings.TrimPrefix(line, "github.com/free5gc/chf/")
@@ -958,15 +958,17 @@ func CheckC11(h *History) []Violation {
 			if role == "followup" {
 				cls = "subscriber-wedged"
 			}
-			v.add("C11", cls, "site="+wedgeSite(o.Stacks)+" probe="+probeName(h, o), o.Op.ID,
-				"op %d (%s %s %s) did not return within the simulated budget after probe %q; parked goroutines:\n%s",
-				o.Op.ID, role, o.Op.Method, o.Op.Path, probeName(h, o), o.Stacks)
+			v.add("C11", cls, "site="+wedgeSite(o.Stacks), o.Op.ID,
+				"op %d (%s %s %s %s) did not return within the simulated budget after probe %q; parked goroutines:\n%s",
+				o.Op.ID, role, o.Op.Kind, o.Op.Method, o.Op.Path, probeName(h, o), o.Stacks)
 			return v.list
 		}
 		if is5xx(o.Status) {
 			v.add("C11", "5xx", "role="+role+" route="+routeOf(&o.Op)+" cause="+panicCause(strings.Join(o.Panics, ";"))+" site="+panicSite(o.Panics), o.Op.ID,
-				"op %d (%s %s %s, probe %q) answered %d; recovered panics: %v\nrequest body: %s", o.Op.ID, role, o.Op.Method, o.Op.Path, probeName(h, o), o.Status, o.Panics, string(o.Op.Body))
-			return v.list
+				"op %d (%s %s %s %s, probe %q) answered %d; recovered panics: %v\nrequest body: %s", o.Op.ID, role, o.Op.Kind, o.Op.Method, o.Op.Path, probeName(h, o), o.Status, o.Panics, string(o.Op.Body))
+			if len(v.list) >= 4 {
+				return v.list
+			}
 		}
 	}
 	return v.list
